@@ -71,6 +71,8 @@ def schedules(pid, tier, seed):
         n = 80 if q else 500
         for i in range(n):
             bub.append(g.heartbeat(nid()))
+        for status in ([0, 0x21, 0x22, 0x23, 0x24, 0x25, 0x26, 0x27, 0x29, 0x99] if q else list(range(0, 256))):
+            bub.append(g.hb_foreign(nid(), status))   # (foreign-channel frames of every status while a heartbeat is pending)
         for i in range(8 if q else 48):
             real.append(g.senders_rt(nid(), reconnect=True))
     elif pid == 'C10':
